@@ -322,7 +322,10 @@ def native_replay(set_name, harness, byte_vectors):
             p = subprocess.run(cmd, cwd=sc.repo, env=scratch.cargo_env("target-replay"), capture_output=True, text=True, timeout=1500)
             both = p.stdout + p.stderr
             out = p.stdout[-3000:] + "\n--- stderr (tail) ---\n" + p.stderr[-3000:]
-            reproduced = p.returncode != 0 and "verif_replay_counterexample ... FAILED" in both and "panicked" in both \
+            # an ordinary panic fails the test; a violated unsafe precondition (debug build) aborts the process without unwinding
+            failed = "verif_replay_counterexample ... FAILED" in both or \
+                ("verif_replay_counterexample" in both and "unsafe precondition(s) violated" in both)
+            reproduced = p.returncode != 0 and failed and "panicked" in both \
                 and "REPLAY:" not in both and "could not compile" not in both
             return {"cmd": " ".join(cmd), "exit": p.returncode, "output": out, "reproduced": reproduced}
         except subprocess.TimeoutExpired:
